@@ -213,6 +213,9 @@ def check_guderley(case):
     alpha = math.log(rs[1] / rs[0]) / math.log(tl2 / tl1)
     lam = 1.0 / alpha
     o.close('converging shock at r_s = (-t_L)^(1/lambda)', rs[0], (-tl1) ** alpha, 1e-6)
+    # ... and lambda is the documented eigenvalue for this gamma and geometry (public eexp.eexp, computed here on its own)
+    from exactpack.solvers.guderley import eexp as _eexp
+    o.close('similarity exponent shown by the fields = documented lambda(gamma, geometry)', lam, float(cat.quiet(_eexp.eexp, int(P['geometry']), float(P['gamma']))), 1e-4)
     o.label('geom%d' % P['geometry'], 'gamma%g' % P['gamma'])
     # points with equal xi = t_L / r^lambda at the two (pre-collapse) times and at a post-collapse time
     xi = np.asarray(case['xi'])
